@@ -25,8 +25,11 @@ LEVEL = ('decides the discipline around explanations, not their logic: propagato
          '(L16); lazy reasons of reified propagators keep the literal (L17). WITNESS-POINT of '
          'pointwise explanations (L18 = H11); element explanations name the position they argue about '
          '(L19); INCREMENTAL-RESET of un-trailed accumulators (L20); reasons assembled from parts are '
-         'their union (L21). Beyond these necessary conditions: Logical sufficiency and truth of the '
-         'stated facts — the heart of the property — are NOT decided')
+         'their union (L21). eager reasons select by position only, never by a test on the current '
+         'domains (L22); buffered lazy explanations are rebuilt on every call (L23 MUST-PASS); tasks '
+         'leave a resource profile only where a mandatory part is undone (L24 WHO-MAY-SHRINK). Beyond '
+         'these necessary conditions: Logical sufficiency and truth of the stated facts — the heart of'
+         ' the property — are NOT decided')
 TECHNIQUE = "static analysis: who-may-call / taint with control dependence / dominance over rustc MIR"
 
 ASSIGN_MUTATORS = ("tighten_lower_bound", "tighten_upper_bound", "remove_value_from_domain",
